@@ -23,6 +23,7 @@ EXPLANATION = (
     "append carries the must-hold fact `topic in subscriptions[member]` (exit condition of the search loop); the "
     "sequences driving the pairing are order-tainted unless they pass sorted()/sort(); one next() on the cycle "
     "outside the search loop; generate_assignments keys blob and lookup by the same member id."
+    ' Also: the partition snapshot covers every requested topic (R6, finding F42), the lists handed to the second generation come from the load alone, sorts have no key function.'
 )
 SHARED = [('C05', ['R3'], "each member decodes from the leader's encoded assignment exactly what was encoded (blob encoder/decoder agree)")]
 ASSUMPTIONS = ["itertools.cycle yields its elements round-robin; sorted() is deterministic for str/int keys"]
